@@ -126,6 +126,7 @@ fn body_facts<'tcx>(tcx: TyCtxt<'tcx>, ldid: LocalDefId) -> Option<J> {
     let mut asserts = vec![];
     let mut casts = vec![];
     let mut tls = vec![];
+    let mut discrs = vec![];
     for (_bb, data) in body.basic_blocks.iter_enumerated() {
         for st in &data.statements {
             let sp = st.source_info.span;
@@ -161,6 +162,14 @@ fn body_facts<'tcx>(tcx: TyCtxt<'tcx>, ldid: LocalDefId) -> Option<J> {
                     Rvalue::BinaryOp(_, ops) => {
                         operand_refs(tcx, &ops.0, &mut fnrefs, &mut statics, sp);
                         operand_refs(tcx, &ops.1, &mut fnrefs, &mut statics, sp);
+                    }
+                    Rvalue::Discriminant(place) => {
+                        // which enum / Option is being matched on (presence tests of option values)
+                        discrs.push(J::obj(vec![
+                            ("ty", J::s(tyj::ty_str(place.ty(body, tcx).ty))),
+                            ("span", span_j(tcx, root_span(sp))),
+                            ("macros", macro_bt(sp)),
+                        ]));
                     }
                     Rvalue::ThreadLocalRef(d) => {
                         tls.push(J::obj(vec![
@@ -241,6 +250,7 @@ fn body_facts<'tcx>(tcx: TyCtxt<'tcx>, ldid: LocalDefId) -> Option<J> {
         ("tls", J::Arr(tls)),
         ("asserts", J::Arr(asserts)),
         ("casts", J::Arr(casts)),
+        ("discrs", J::Arr(discrs)),
     ]);
     let hid = tcx.local_def_id_to_hir_id(ldid);
     o.push("attrs", J::Arr(tcx.hir_attrs(hid).iter().map(|a| J::s(format!("{:?}", a))).collect()));
